@@ -138,6 +138,7 @@ FTok(lazy) == { <<Rule(<<Dl(".", FALSE), I("a", FALSE)>>, <<Decl(p[1], p[2])>>)>
             <<"w5", <<Dim(3, "e", FALSE), Dim(11, "E", TRUE)>>>>, <<"w6", <<Dim(3, "ex", FALSE), Dim(3, "em", TRUE)>>>>,
             <<"filter", <<Fn("drop-shadow", <<Dim(2, "rpx", FALSE), Dim(2, "rpx", TRUE), Hx("000", TRUE)>>, FALSE)>>>> } }
         \cup { <<At("font-face", <<>>, "decls", <<Decl("unicode-range", <<I("U", FALSE), Num(27, FALSE)>>)>>)>>,
+               <<At("font-face", <<>>, "decls", <<Decl("unicode-range", <<I("u", FALSE), Num(30, FALSE), Com(FALSE), I("U", TRUE), Num(27, FALSE)>>)>>)>>,
                <<At("charset", <<Str("utf-8", TRUE)>>, "stmt", <<>>), Rule(<<I("p", FALSE)>>, Red)>>,
                <<At("namespace", <<I("svg", TRUE), Url("http://x/y", TRUE)>>, "stmt", <<>>)>>,
                <<At("layer", <<I("a", TRUE), Com(FALSE), I("b", TRUE)>>, "stmt", <<>>), Rule(<<I("p", FALSE)>>, Red)>>,
